@@ -88,3 +88,18 @@ Theorem getorload_answers_atomic : forall progs sched i t p,
   rets t = map Found (firstn (List.length (rets t)) p) /\ (AutoloadModel.todo t = [] -> rets t = map Found p).
 Proof. exact answers_atomic_l. Qed.
 Print Assumptions getorload_answers_atomic.
+
+(* "every registration that reported success is visible to all LATER lookups", across threads: the
+   linearization respects real time.  Cut any execution at any point (state s1 after sched1): the linearization
+   recorded by then already contains every call that has RETURNED by then, contains only calls STARTED by then,
+   and everything that happens afterwards is appended.  So a call that returned before another one was invoked
+   precedes it in H; with success_visible_later this gives visibility to all later lookups of any thread. *)
+Theorem real_time_order : forall s0 progs sched1 sched2,
+  let s1 := crun (cinit s0 progs) sched1 in
+  let s2 := crun (cinit s0 progs) (sched1 ++ sched2) in
+  (exists tail, hist s2 = (hist s1 ++ tail)%list) /\
+  (forall i, (i < List.length progs)%nat ->
+     map e_call (of_thread i (hist s1)) = started_of s1 i /\
+     (List.length (returned_of s1 i) <= List.length (of_thread i (hist s1)))%nat).
+Proof. exact real_time_order_l. Qed.
+Print Assumptions real_time_order.
